@@ -75,7 +75,7 @@ func c10Qual(f c10File, i int) string {
 	case 4:
 		return c10Collide[i] + "."
 	}
-	return "?."
+	return "?." // absent or blank import: the file itself cannot refer to the package
 }
 
 // c10Body renders the uses of dependency set `uses` with file f's qualifiers.
@@ -112,6 +112,8 @@ func c10Header(f c10File, pkgName string) string {
 			specs = append(specs, fmt.Sprintf("\t. %q", p))
 		case 4:
 			specs = append(specs, fmt.Sprintf("\t%s %q", c10Collide[i], p))
+		case 5:
+			specs = append(specs, fmt.Sprintf("\t_ %q", p))
 		}
 	}
 	if len(specs) > 0 {
@@ -123,7 +125,7 @@ func c10Header(f c10File, pkgName string) string {
 func usedSet(f c10File) int {
 	u := 0
 	for i, s := range f.Styles {
-		if s != 0 {
+		if s != 0 && s != 5 {
 			u |= 1 << i
 		}
 	}
@@ -184,7 +186,7 @@ func init() {
 		ID:    "C10",
 		Level: "model_checking",
 		Rule: "typed worlds: three dependencies (two named x, one whose name differs from its path); source file with import style per dependency in {plain, alias, dot} x moved item {function, function also using a source-local function (ResolveLocalPath), variable, statement} using each non-empty subset of the dependencies " +
-			"x target file (same or another package; optionally dot-importing a further package that exports the same names as the first dependency) with style per dependency in {absent, plain, alias, dot, alias equal to the package name of another dependency} x histories {single move (quick tier: the further histories for function and statement items using all three dependencies; thorough: everywhere), chain through a third file, two items, move back, move a Clone, and (same package) the target restored by a FileRestorer that restored the source file first, and the item resting in (and being restored inside) the package it refers to before it moves on}; only type-correct source/target files are in the quantifier; decoration with the types-based resolver, restoration with an exact package-name map; " +
+			"x target file (same or another package; optionally dot-importing a further package that exports the same names as the first dependency) with style per dependency in {absent, plain, alias, dot, alias equal to the package name of another dependency, blank import} x histories {single move (quick tier: the further histories for function and statement items using all three dependencies; thorough: everywhere), chain through a third file, two items, move back, move a Clone, and (same package) the target restored by a FileRestorer that restored the source file first, and the item resting in (and being restored inside) the package it refers to before it moves on}; only type-correct source/target files are in the quantifier; decoration with the types-based resolver, restoration with an exact package-name map; " +
 			"oracle: the restored target type-checks and every moved identifier denotes the object of the same package path and name; state = (source styles, target styles, item, uses, history); non-trivial = every state",
 		Assumptions: []string{"go/types of this toolchain is the acceptance oracle", "no declaration of the generated targets shadows an import name (the property's proviso)"},
 		Units: func(tier string) []string {
@@ -215,13 +217,13 @@ func runC10(ctx *core.Ctx, unit int) {
 		x /= 3
 	}
 	items := []string{"func", "var", "stmt", "local"}
-	for t := 0; t < 125; t++ {
+	for t := 0; t < 216; t++ { // target styles 0-5 per dependency (5 = blank import)
 		var tgt c10File
 		tgt.Prefix = "t"
 		y := t
 		for i := 0; i < 3; i++ {
-			tgt.Styles[i] = y % 5
-			y /= 5
+			tgt.Styles[i] = y % 6
+			y /= 6
 		}
 		for _, tpkg := range []string{c10TgtPath, c10SrcPath} {
 			tgt.Pkg = tpkg
@@ -232,7 +234,7 @@ func runC10(ctx *core.Ctx, unit int) {
 						// imported, or under the colliding alias (aliased and dot-imported only in the thorough tier)
 						skip := false
 						for i := 0; i < 3; i++ {
-							if uses&(1<<i) == 0 && (tgt.Styles[i] == 2 || tgt.Styles[i] == 3) {
+							if uses&(1<<i) == 0 && (tgt.Styles[i] == 2 || tgt.Styles[i] == 3 || tgt.Styles[i] == 5) {
 								skip = true
 							}
 						}
@@ -252,6 +254,9 @@ func runC10(ctx *core.Ctx, unit int) {
 							}
 							if clash && (uses&1 == 0 || tgt.Styles[0] == 3 || h != "single" && h != "reuse") {
 								continue
+							}
+							if h != "single" && !ctx.Thorough() && (tgt.Styles[0] == 5 || tgt.Styles[1] == 5 || tgt.Styles[2] == 5) {
+								continue // quick tier: blank-import targets in single moves only
 							}
 							cs := c10Case{Src: src, Tgt: tgt, Item: item, Uses: uses, History: h, Clash: clash}
 							if h == "chain" {
@@ -283,10 +288,21 @@ type c10Loaded struct {
 }
 
 func c10Load(w *oracle.World, path, text string, resolveLocal bool) (*c10Loaded, error) {
-	chk, err := w.Check(path, map[string]string{"f.go": text})
-	if err != nil {
-		return nil, err
+	// type-checking is the expensive part and its result is never modified: cached per worker
+	key := path + "\x00" + text
+	ent, ok := c10Checked[key]
+	if !ok {
+		if len(c10Checked) > 4000 {
+			c10Checked = map[string]c10CheckedEnt{}
+		}
+		chk, err := w.Check(path, map[string]string{"f.go": text})
+		ent = c10CheckedEnt{chk, err}
+		c10Checked[key] = ent
 	}
+	if ent.err != nil {
+		return nil, ent.err
+	}
+	chk := ent.chk
 	dec := decorator.NewDecoratorWithImports(chk.Fset, path, gotypes.New(chk.Info.Uses))
 	dec.ResolveLocalPath = resolveLocal
 	f, err := dec.DecorateFile(chk.Files[0])
@@ -344,6 +360,15 @@ func place(f *dst.File, d dst.Decl, s dst.Stmt) {
 	slot.Body.List = append(slot.Body.List, s)
 }
 
+var c10SharedWorld *oracle.World
+
+type c10CheckedEnt struct {
+	chk *oracle.Checked
+	err error
+}
+
+var c10Checked = map[string]c10CheckedEnt{}
+
 func c10Check(cs c10Case) (core.Outcome, bool) {
 	fail := func(key, f string, a ...interface{}) (core.Outcome, bool) {
 		b, _ := json.Marshal(cs)
@@ -355,7 +380,11 @@ func c10Check(cs c10Case) (core.Outcome, bool) {
 		tgtText = strings.Replace(tgtText, "func keepTgt", "func keepTgt2", 1)
 	}
 	// the source package must be importable by targets in other packages (ResolveLocalPath)
-	w := c10World(map[string]string{c10SrcPath: "package src\n\nfunc Local() int { return 1 }\n"})
+	if c10SharedWorld == nil {
+		// one world per worker: the dependency packages are type-checked once and imported by every case
+		c10SharedWorld = c10World(map[string]string{c10SrcPath: "package src\n\nfunc Local() int { return 1 }\n"})
+	}
+	w := c10SharedWorld
 	resolveLocal := cs.Item == "local"
 	src, err := c10Load(w, c10SrcPath, srcText, resolveLocal)
 	if err != nil {
